@@ -77,6 +77,11 @@ fn gen_case(c: &mut Chooser) -> Case {
     // a chain of imports: a -> b -> c, where a does not import c itself, across directories
     files.insert("src/chain/a.graphql".into(), "#import Mid from \"./lib/b.graphql\"\nquery ChainA {\n  me { ...Mid }\n}\n".into());
     files.insert("src/chain/lib/b.graphql".into(), "#import Leaf from \"../../leaf/c.graphql\"\nfragment Mid on User {\n  id\n  ...Leaf\n}\n".into());
+    // the same specifier text in two directories, naming two different files
+    files.insert("src/dup/one/main.graphql".into(), "#import Near from \"./frag.graphql\"\n#import Far from \"../two/entry.graphql\"\nquery DupMain {\n  me { ...Near ...Far }\n}\n".into());
+    files.insert("src/dup/one/frag.graphql".into(), "fragment Near on User {\n  id\n}\n".into());
+    files.insert("src/dup/two/entry.graphql".into(), "#import Deep from \"./frag.graphql\"\nfragment Far on User {\n  name\n  ...Deep\n}\n".into());
+    files.insert("src/dup/two/frag.graphql".into(), "fragment Deep on User {\n  age\n}\n".into());
     files.insert("src/leaf/c.graphql".into(), "fragment Leaf on User {\n  name\n}\nfragment LeafUnused on User { age }\n".into());
     match c.choose("unicode", 2) {
         0 => {}
